@@ -933,6 +933,21 @@ def any_union_guard(case, call):
     return any((not isinstance(t, str)) and "Any" in t[1] for t in tys)
 
 
+def has_permissive_test(body):
+    """the body contains an is_of_type(..., exclude_any=False) test"""
+
+    def cond(c):
+        if c[0] == "type":
+            return not c[3]
+        if c[0] == "not":
+            return cond(c[1])
+        if c[0] in ("and", "or"):
+            return any(cond(x) for x in c[1])
+        return False
+
+    return any(s_[0] == "if" and (cond(s_[1]) or has_permissive_test(s_[2]) or has_permissive_test(s_[3])) for s_ in body)
+
+
 def load_corpus():
     p = HERE / "corpus" / "C20.json"
     return json.loads(p.read_text()) if p.exists() else []
@@ -1094,7 +1109,10 @@ def run(tier: str, replay: str | None = None):
                     sup = set(dset["rets"]) >= want_r and set(dset["errs"]) >= want_e
                     if sup and any_union_guard(case, call) and m is not None and m == dset:
                         known.append(("C20-any-union-fallthrough", ci, ki))
-                    elif sup and any_union_guard(case, call) and m is None and not model_ok:
+                    elif any_union_guard(case, call) and has_permissive_test(case["body"]) and m is not None and m == dset:
+                        # hypothesis narrow_id fails: the Any member is converted by an exclude_any=False test
+                        known.append(("C20-any-permissive-conversion", ci, ki))
+                    elif any_union_guard(case, call) and m is None and not model_ok:
                         undecided += 1
                     else:
                         failing.append((ci, ki, "union call is not the union of the member calls" + (" (superset)" if sup else " (members' results missing: unsound)"), dset, want))
